@@ -47,6 +47,10 @@ type Case struct {
 	Flags   []bool         `json:"flags"`   // per package: defines a flag
 	Helpers [][]int        `json:"helpers"` // per helper: helper indexes it loads
 	Pol     cosched.Policy `json:"pol"`
+	// Spell selects how load labels are written: 0 absolute (//lib:h0.dawn); otherwise the relative
+	// spellings the label syntax offers are mixed in - from the root package "lib:h0.dawn", inside //lib
+	// ":h1.dawn", from //p1 "q:BUILD.dawn" - so that one module is reached under several spellings
+	Spell int `json:"spell,omitempty"`
 }
 
 var pkgPaths = []string{"//", "//p1", "//p2", "//p1/q"}
@@ -132,11 +136,25 @@ func (c *Case) cycle() (bool, int) {
 	return found, length
 }
 
-func loadStmt(ref int, alias string) string {
+// loadStmt writes the load of module ref as seen from package from ("//lib" for helpers); k varies the
+// spelling between the loads of one file.
+func (c *Case) loadStmt(ref int, alias, from string, k int) string {
+	lbl, sym := fmt.Sprintf("//lib:h%d.dawn", ref), fmt.Sprintf("H%d", ref)
 	if ref >= 100 {
-		return fmt.Sprintf("load(%q, %s=\"V\")\n", pkgPaths[ref-100]+":BUILD.dawn", alias)
+		lbl, sym = pkgPaths[ref-100]+":BUILD.dawn", "V"
 	}
-	return fmt.Sprintf("load(\"//lib:h%d.dawn\", %s=\"H%d\")\n", ref, alias, ref)
+	if c.Spell > 0 && (c.Spell+k)%2 == 1 {
+		pkg, name, _ := strings.Cut(lbl[2:], ":")
+		switch {
+		case from == "//"+pkg:
+			lbl = ":" + name // same package
+		case from == "//" && pkg != "":
+			lbl = pkg + ":" + name // relative to the root package
+		case from != "//" && strings.HasPrefix("//"+pkg, from+"/"):
+			lbl = strings.TrimPrefix("//"+pkg, from+"/") + ":" + name // a sub-package
+		}
+	}
+	return fmt.Sprintf("load(%q, %s=%q)\n", lbl, alias, sym)
 }
 
 func (c *Case) write(dir string) {
@@ -150,7 +168,7 @@ func (c *Case) write(dir string) {
 				continue
 			}
 			alias := fmt.Sprintf("X%d_%d", i, k)
-			b.WriteString(loadStmt(h, alias))
+			b.WriteString(c.loadStmt(h, alias, "//lib", i+k))
 			sum += " + " + alias
 		}
 		fmt.Fprintf(&b, "H%d = %s\n", i, sum)
@@ -166,7 +184,7 @@ func (c *Case) write(dir string) {
 				continue
 			}
 			alias := fmt.Sprintf("Y%d", k)
-			b.WriteString(loadStmt(h, alias))
+			b.WriteString(c.loadStmt(h, alias, pkgPaths[i], i+k))
 			uses += " + " + alias
 		}
 		if i < len(c.Flags) && c.Flags[i] {
@@ -300,6 +318,9 @@ func exec(c Case) (v ev.Verdict) {
 	for p := range c.Pkgs {
 		walk(100 + p)
 	}
+	if len(evs.order) > len(reach) {
+		return ev.Failf("module-loaded-twice", "%d module executions for %d reachable module files: %v", len(evs.order), len(reach), evs.order)
+	}
 	for n := range reach {
 		l := fmt.Sprintf("module://lib:h%d.dawn", n)
 		if n >= 100 {
@@ -400,6 +421,7 @@ func gen(t *rapid.T) Case {
 		c.Helpers[last] = append([]int{100}, c.Helpers[last]...)
 	}
 	c.Pol = rungraph.GenPolicy(t, 3)
+	c.Spell = rapid.SampledFrom([]int{0, 1, 2, 0}).Draw(t, "spell")
 	return c
 }
 
